@@ -155,7 +155,9 @@ theorem rx_last (hd : b.s.devs = [db]) (hq : Quiet b.s 0) (hsrc : srcA < 256) (h
   · subst hN
     simp only [finish, upd_setSlot, upd_pushes, List.set_set]
     unfold deliver
-    simp only [upd_slots, List.getElem?_set_self hj, List.set_set]
+    simp only [upd_slots, List.getElem?_set_self hj]
+    rw [systemMessage_tp _ _ (by rfl)]
+    simp only [upd_slots, upd_out, List.set_set, deliveryOf]
     have e1 : (dtSlot (sess a0 m srcA db.source mt k) (dtBytes m k)
         (millis32 (b.upd b.tp (S'.set j (sess a0 m srcA db.source mt k)) out fs rxq).s.now)).data.take m.len
           = m.data.take m.len := by simpa [dtSlot, sess] using htake
